@@ -56,6 +56,13 @@ class FakeSock:
     def sendall(self, b):
         self.script.out += bytes(b)
 
+    def send(self, b):
+        # a socket may take only part of what it is offered (here: at most seven bytes) and says how much: whoever ignores the
+        # count truncates the reply (seed C16-j wrote the reply with one send())
+        b = bytes(b)[:7]
+        self.script.out += b
+        return len(b)
+
     def close(self):
         self.script.closed = True
 
